@@ -395,11 +395,27 @@ Definition wf_fp (c : list ie) : bool :=
   && all_lt 256 (sel g_smreq c)
   && match sel g_bad c with [] => true | _ => false end.
 
+(* the same without the "no NUL octet in the policy identifier" clause: the property's own quantifier
+   (the identifier is an OctetString).  Used to state the finding C02_far_policy_nul_refuted. *)
+Definition wf_fp_full (c : list ie) : bool :=
+  le1 (sel g_ohc c) && le1 (sel g_fpol c) && le1 (sel g_smreq c)
+  && forallb wf_ohc (sel g_ohc c)
+  && forallb (fun s => all_lt 256 s) (sel g_fpol c)
+  && all_lt 256 (sel g_smreq c)
+  && match sel g_bad c with [] => true | _ => false end.
+
 Definition wf_far (upd : bool) (ies : list ie) : bool :=
   eq1 (sel g_farid ies) && le1 (sel g_aa ies) && le1 (sel (g_fp upd) ies) && le1 (sel g_barid ies)
   && all_lt 4294967296 (sel g_farid ies) && all_lt 256 (sel g_barid ies)
   && forallb (fun b => (Nat.leb 1 (length b)) && (Nat.leb (length b) 2) && all_lt 256 b) (sel g_aa ies)
   && forallb wf_fp (sel (g_fp upd) ies)
+  && match sel g_bad ies with [] => true | _ => false end.
+
+Definition wf_far_full (upd : bool) (ies : list ie) : bool :=
+  eq1 (sel g_farid ies) && le1 (sel g_aa ies) && le1 (sel (g_fp upd) ies) && le1 (sel g_barid ies)
+  && all_lt 4294967296 (sel g_farid ies) && all_lt 256 (sel g_barid ies)
+  && forallb (fun b => (Nat.leb 1 (length b)) && (Nat.leb (length b) 2) && all_lt 256 b) (sel g_aa ies)
+  && forallb wf_fp_full (sel (g_fp upd) ies)
   && match sel g_bad ies with [] => true | _ => false end.
 
 (* ------------------------------------------------------------------ C02 as a boolean monitor over a captured request *)
